@@ -1457,7 +1457,6 @@ func ruleS17_7(c *Ctx, id string) {
 	}
 }
 
-
 // ruleS17_8: NFS3_OK is the zero value of the status: a reply whose Status
 // nobody stored says "done".  Every return of a SimpleNFS procedure must have a
 // store to the reply's Status on its path (its own, or that of a function it
